@@ -43,6 +43,17 @@ def reshape_rechunk(inshape, outshape, inchunks, disallow_dimension_expansion=Fa
     mapper_in, one_dimensions = {}, []
 
     while ii >= 0 or oi >= 0:
+        if ii < 0:
+            # input exhausted: the remaining output dimensions have length 1
+            result_outchunks[oi] = (1,)
+            one_dimensions.append(oi)
+            oi -= 1
+            continue
+        if oi < 0:
+            # output exhausted: the remaining input dimensions have length 1
+            result_inchunks[ii] = (1,)
+            ii -= 1
+            continue
         if inshape[ii] == outshape[oi]:
             result_inchunks[ii] = inchunks[ii]
             result_outchunks[oi] = inchunks[ii]
